@@ -258,18 +258,30 @@ impl C09 {
                 if n2.len() == n3.len() {
                     let changed: Vec<usize> = (0..n2.len()).filter(|i| n2[*i] != n3[*i]).collect();
                     let direct: Vec<ExprRef> = sys2.outputs.iter().map(|o| o.expr).chain(sys2.bad_states.iter().copied()).chain(sys2.constraints.iter().copied()).collect();
-                    let all_inputs_direct = changed.iter().all(|i| *i < sys2.inputs.len() && direct.contains(&sys2.inputs[*i]) && is_autogen(n3[*i].split(':').nth(1).unwrap_or("")));
                     let ni = sys2.inputs.len();
                     let ns = sys2.states.len();
                     let nrefs = |e: ExprRef| sys2.bad_states.iter().chain(sys2.constraints.iter()).filter(|x| **x == e).count();
-                    let all_states_multi = changed.iter().all(|i| *i >= ni && *i < ni + ns && nrefs(sys2.states[*i - ni].symbol) >= 2);
-                    if all_inputs_direct {
-                        disc = "input-directly-referenced-by-label".into();
-                    } else if all_states_multi {
-                        disc = "state-directly-referenced-by-several-bad-or-constraint-lines".into();
-                    } else {
-                        disc = changed.iter().map(|i| n2[*i].split(':').next().unwrap_or("?").to_string()).collect::<Vec<_>>().join("+");
+                    // every changed name is classified on its own: one system can show several causes at once
+                    let classes: std::collections::BTreeSet<String> = changed
+                        .iter()
+                        .map(|i| {
+                            if *i < ni && direct.contains(&sys2.inputs[*i]) && is_autogen(n3[*i].split(':').nth(1).unwrap_or("")) {
+                                "input-directly-referenced-by-label".to_string()
+                            } else if *i >= ni && *i < ni + ns && nrefs(sys2.states[*i - ni].symbol) >= 2 {
+                                "state-directly-referenced-by-several-bad-or-constraint-lines".to_string()
+                            } else {
+                                n2[*i].split(':').next().unwrap_or("?").to_string()
+                            }
+                        })
+                        .collect();
+                    if classes.iter().all(|c| c.contains("-directly-referenced-")) {
+                        let detail = format!("names after first read: {:?}\nnames after a further write/read: {:?}\n--- text of the first cycle\n{}\n--- text of the second cycle\n{}", n2, n3, util::trunc(&text, 4000), util::trunc(&text2, 4000));
+                        for c in classes {
+                            sh.violation(format!("C09|names-not-stable|{c}"), detail.clone(), json!({}));
+                        }
+                        return;
                     }
+                    disc = classes.into_iter().collect::<Vec<_>>().join("+");
                 }
                 sh.violation(
                     format!("C09|names-not-stable|{disc}"),
